@@ -20,6 +20,7 @@ import time
 import zlib
 from fractions import Fraction
 
+sys.set_int_max_str_digits(0)
 VERIF = os.path.dirname(os.path.dirname(os.path.abspath(__file__)))
 LEAN = os.path.join(VERIF, "lean")
 DRV = os.path.join(LEAN, ".lake", "build", "bin", "qspdrv")
